@@ -429,7 +429,7 @@ class StateEngine(object):
         execution_detail["startDate"] = saved_startDate
         execution_detail["stopDate"] = saved_stopDate
 
-    def start_execution(self, state_machine, start_state, event):
+    def start_execution(self, state_machine, start_state, event, redelivered=False):
         """
         Initialise the state machine execution's state, in particular this will
         set any context metadata that hasn't previously been set elsewhere.
@@ -527,6 +527,18 @@ class StateEngine(object):
         """
         state_machine_type = state_machine.get("type")
         if state_machine_type == "STANDARD":
+            """
+            The event that starts an execution stays unacknowledged while its
+            first state is a Task, Wait, Parallel or Map state, so after a
+            restart it is redelivered. If the execution's record is still there
+            the execution has been started already: its record (startDate), its
+            history and its RUNNING notification must not be produced again.
+            """
+            if redelivered:
+                existing = self.executions.get(execution_arn)
+                if existing and existing.get("status") == "RUNNING":
+                    return
+
             self.executions[execution_arn] = execution_detail
             self.executions.set_ttl(execution_arn, self.execution_ttl)
 
@@ -1568,7 +1580,7 @@ class StateEngine(object):
             If so initialise unset context fields and start OpenTracing span.
             """
             current_state = ASL["StartAt"]
-            self.start_execution(state_machine, current_state, event)
+            self.start_execution(state_machine, current_state, event, redelivered)
 
             with opentracing.tracer.start_active_span(
                 operation_name="StartExecution:ExecutionStarting",
